@@ -7,7 +7,9 @@ import JediModel.Model.Walk
                         string without dots (`wanted_names` has one element; the dotted case goes
                         through inference and is outside the model)
 * `skipDuplicates`    — `jedi/api/project.py:_try_to_skip_duplicates`
-* `projectSearch`     — `Project._search_func` steps 1 and 2 on the events of `Walk.walkRoot`
+* `projectSearch`     — `Project._search_func` steps 1 and 2 on the events of `Walk.walkRoot`; the file
+                        branch of step 1 (where `file_ios.append` stands) is a parameter transcribed
+                        from the source by the translator
 
 `lower` is CPython's `str.lower` (parameter). -/
 namespace JediModel.Search
@@ -94,20 +96,94 @@ def lookup (tbl : List PathInfo) (p : Str) : Option PathInfo := tbl.find? (·.pa
 /-- last path component of an event path built by `osJoin` -/
 def baseName (p : Str) : Str := ((p.reverse.takeWhile (· ≠ '/'))).reverse
 
-/-- step 1 of `Project._search_func`: modules / packages named like the first search word -/
-def moduleHits (lower : Str → Str) (tbl : List PathInfo) (wantedType name : Str)
+/-! ### `Project._search_func`, step 1 and the collection of the files for step 2
+
+```
+file_ios = []
+for folder_io, file_io in ios:
+    if file_io is None:  <folder: named like the word or like word + '-stubs' → m = package, else continue>
+    else:                <FILE BRANCH>
+    yield from search_in_module(.., names=[m.name], ..)
+for module_context in search_in_file_ios(inference_state, file_ios, name, ..): <identifiers>
+```
+The file branch is not fixed in the model: the translator transcribes it from the source as a
+list of statements (`FileBranch`) over `append` (`file_ios.append(file_io)`), `load`
+(`m = load_module_from_path(..)`), `continue` and one `if_named` (`if Path(file_io.path).name in
+(name + '.py', name + '.pyi')`) with simple statements in both branches; `runBranch` executes it.
+Which files reach step 2 is therefore read off the source, statement order included. -/
+
+/-- (statement, then-branch, else-branch); the branches are only used by `if_named` -/
+abbrev FileBranch := List (String × List String × List String)
+
+/-- state of one pass through the file branch: was the file appended to `file_ios`, was `m`
+assigned; the third component of a result says that the pass ended in `continue`.
+`none` = a statement the model does not know. -/
+def runSimple : List String → Bool × Bool → Option (Bool × Bool × Bool)
+  | [], (c, l) => some (c, l, false)
+  | s :: ss, (c, l) =>
+    if s = "append" then runSimple ss (true, l)
+    else if s = "load" then runSimple ss (c, true)
+    else if s = "continue" then some (c, l, true)
+    else none
+
+def runBranch (named : Bool) : FileBranch → Bool × Bool → Option (Bool × Bool × Bool)
+  | [], (c, l) => some (c, l, false)
+  | (tag, th, el) :: rest, st =>
+    match (if tag = "if_named" then runSimple (if named then th else el) st else runSimple [tag] st) with
+    | some (c, l, true) => some (c, l, true)
+    | some (c, l, false) => runBranch named rest (c, l)
+    | none => none
+
+/-- one file event: `some (collected, moduleHit)`: the file is appended to `file_ios` / the pass
+reaches `yield from search_in_module(.., names=[m.name])` with `m` assigned in this pass.
+`none`: unknown statement, or the `yield from` is reached without `m` being assigned in this pass
+(python: `UnboundLocalError` or the module of an earlier pass — an error outcome here). -/
+def fileStep (br : FileBranch) (named : Bool) : Option (Bool × Bool) :=
+  match runBranch named br (false, false) with
+  | some (c, _, true) => some (c, false)
+  | some (c, true, false) => some (c, true)
+  | some (_, false, false) => none
+  | none => none
+
+/-- is the file event named like the search word: `Path(file_io.path).name in (name + sfx, ..)` -/
+def fileNamed (sfx : List Str) (name : Str) (ev : Ev) : Bool := sfx.any fun s => baseName ev.path == name ++ s
+
+/-- the module hit of one event (`search_in_module` over `[m.name]`) -/
+def moduleHit (lower : Str → Str) (tbl : List PathInfo) (wantedType name : Str) (complete : Bool) (ev : Ev) : List Nm :=
+  match lookup tbl ev.path with
+  | some i => searchFilter lower [i.modName] wantedType name complete false
+  | none => []
+
+def folderNamed (stubSfx : Str) (name : Str) (ev : Ev) : Bool :=
+  baseName ev.path == name || baseName ev.path == name ++ stubSfx
+
+/-- the step-1 loop with the file branch `fs` (`fileStep br`): `(module hits, file_ios)` -/
+def step1 (fs : Bool → Option (Bool × Bool)) (sfx : List Str) (stubSfx : Str) (lower : Str → Str) (tbl : List PathInfo)
+    (wantedType name : Str) (complete : Bool) : List Ev → Option (List Nm × List Str)
+  | [] => some ([], [])
+  | ev :: evs =>
+    match step1 fs sfx stubSfx lower tbl wantedType name complete evs with
+    | none => none
+    | some (hits, files) =>
+      if ev.isFile then
+        match fs (fileNamed sfx name ev) with
+        | none => none
+        | some (collected, hit) =>
+          some ((if hit then moduleHit lower tbl wantedType name complete ev else []) ++ hits,
+                if collected then ev.path :: files else files)
+      else
+        some ((if folderNamed stubSfx name ev then moduleHit lower tbl wantedType name complete ev else []) ++ hits,
+              files)
+
+/-- step 1 as the property wants it (specification of `step1`, see `Lemmas.Search.step1_eq`):
+modules / packages named like the first search word -/
+def moduleHits (sfx : List Str) (stubSfx : Str) (lower : Str → Str) (tbl : List PathInfo) (wantedType name : Str)
     (complete : Bool) : List Ev → List Nm
   | [] => []
   | ev :: evs =>
-    let b := baseName ev.path
-    let hit :=
-      if ev.isFile then b == name ++ ".py".toList || b == name ++ ".pyi".toList
-      else b == name || b == name ++ "-stubs".toList
-    (if hit then
-      match lookup tbl ev.path with
-      | some i => searchFilter lower [i.modName] wantedType name complete false
-      | none => []
-    else []) ++ moduleHits lower tbl wantedType name complete evs
+    (if (if ev.isFile then fileNamed sfx name ev else folderNamed stubSfx name ev)
+     then moduleHit lower tbl wantedType name complete ev else []) ++
+      moduleHits sfx stubSfx lower tbl wantedType name complete evs
 
 /-- step 2: identifiers in the files that mention the word, within the limits -/
 def identifierHits (lower : Str → Str) (tbl : List PathInfo) (wantedType name : Str) (complete : Bool)
@@ -120,12 +196,16 @@ def identifierHits (lower : Str → Str) (tbl : List PathInfo) (wantedType name 
 and step 3 restricted to the project directory itself: `sysNames` = the module names
 `iter_module_names` lists for the project root, which is on `sys.path` (the rest of `sys.path`
 is outside the project directory and outside the model).  Step 3 does not consult the walk:
-ignore rules do not apply to it. -/
-def projectSearch (lower : Str → Str) (tbl : List PathInfo) (sysNames : List Nm) (parseLimit openLimit : Nat)
-    (wantedType name : Str) (complete : Bool) (evs : List Ev) : List Nm :=
-  let files := (evs.filter (·.isFile)).map (·.path)
-  skipDuplicates (moduleHits lower tbl wantedType name complete evs ++
-    identifierHits lower tbl wantedType name complete parseLimit openLimit files ++
-    searchFilter lower sysNames wantedType name complete false)
+ignore rules do not apply to it.  `br`, `sfx`, `stubSfx`: the file branch of step 1, the module
+file suffixes and the stub folder suffix as the translator read them. -/
+def projectSearch (br : FileBranch) (sfx : List Str) (stubSfx : Str) (lower : Str → Str) (tbl : List PathInfo)
+    (sysNames : List Nm) (parseLimit openLimit : Nat)
+    (wantedType name : Str) (complete : Bool) (evs : List Ev) : Option (List Nm) :=
+  match step1 (fileStep br) sfx stubSfx lower tbl wantedType name complete evs with
+  | none => none
+  | some (hits, files) =>
+    some (skipDuplicates (hits ++
+      identifierHits lower tbl wantedType name complete parseLimit openLimit files ++
+      searchFilter lower sysNames wantedType name complete false))
 
 end JediModel.Search
